@@ -11,10 +11,10 @@ THEOREMS = [
     ("EG.props.C02", "C02_result_is_last_filter_result"),
     ("EG.props.C02", "C02_namespace_per_node"),
     ("EG.props.C02", "C02_before_after"),
+    ("EG.props.C02", "C02_before_after_result"),
     ("EG.props.C02", "C02_validate_characterisation"),
     ("EG.props.C02", "C02_validate_sound_for_runtime"),
     ("EG.props.C02", "C02_reuse_ok"),
-    ("EG.props.C02", "C02_checker_sound"),
     ("EG.props.C02", "C02_refuted_q_end_alias_target"),
 ]
 _SHARED = {
